@@ -389,3 +389,93 @@ macro_rules! detach_class {
         rt_proof_runtime! { #[kani::unwind(4)] fn $name() { detach_class($class) } }
     };
 }
+
+// ---- 2.b'' detach_return_value, array step: every element goes through detach_return_value ----------
+// `verif_outer_detach_return_value` is a copy of detach_return_value generated from the current source
+// (DESIGN.md A.2, routine duplication); its recursive calls reach the original name, which is replaced by
+// the marking stub below.  One step of the recursion is decided for every element kind; the string cases
+// the recursion bottoms out in are the detach_class instances above.
+static mut DETACH_CALLS: usize = 0;
+static mut DETACH_KINDS: [u8; 4] = [0; 4];
+fn value_kind(v: &Value<'_>) -> u8 {
+    match v {
+        Value::Str(ArenaCow::Borrowed(_)) => 1,
+        Value::Str(ArenaCow::Owned(_)) => 2,
+        Value::Number(_) => 3,
+        Value::Bool(_) => 4,
+        Value::Array(_) => 5,
+        Value::Host(_) => 6,
+        Value::Null => 7,
+    }
+}
+impl<'a> Runtime<'a> {
+    /// Contract stub for the recursive call: records what it was handed and returns a marker.
+    pub fn verif_detach_mark(&self, val: Value<'a>) -> Value<'a> {
+        let n = unsafe { DETACH_CALLS };
+        if n < 4 {
+            unsafe { DETACH_KINDS[n] = value_kind(&val) };
+        }
+        unsafe { DETACH_CALLS = n + 1 };
+        std::mem::forget(val);
+        Value::Number(1000.0 + n as f64)
+    }
+}
+fn detach_array_step(len: usize) {
+    let arena_store = Arena::new(100_000).unwrap();
+    let arena: &'static Arena = unsafe { &*(&arena_store as *const Arena) };
+    let frame_store = Arena::new(1).unwrap();
+    let frame: &'static Arena = unsafe { &*(&frame_store as *const Arena) };
+    let inner_store = Arena::new(1).unwrap();
+    let inner_arena: &'static Arena = unsafe { &*(&inner_store as *const Arena) };
+    let rt = Runtime::new(arena, Some(frame));
+    let s = two_bytes();
+    let text = as_text(&s);
+    let mut items: Vec<Value<'static>, &'static Arena> = Vec::with_capacity_in(2, frame);
+    let mut kinds = [0u8; 2];
+    let mut i = 0;
+    while i < len {
+        let k: u8 = kani::any();
+        kani::assume(k < 5);
+        let v: Value<'static> = match k {
+            0 => Value::Str(ArenaCow::Borrowed(text)),
+            1 => Value::Number(kani::any::<u32>() as f64),
+            2 => Value::Bool(kani::any()),
+            3 => Value::Array(Vec::new_in(inner_arena)),
+            _ => Value::Null,
+        };
+        kinds[i] = value_kind(&v);
+        unsafe { std::ptr::write(items.as_mut_ptr().add(i), v); items.set_len(i + 1); }
+        i += 1;
+    }
+    unsafe { DETACH_CALLS = 0 };
+    let out = rt.verif_outer_detach_return_value(Value::Array(items));
+    assert!(unsafe { DETACH_CALLS } == len, "array-elements: every element of a returned array is detached, once");
+    match &out {
+        Value::Array(v) => {
+            assert!(v.len() == len, "array-length: detaching keeps the number of elements");
+            let mut j = 0;
+            while j < len {
+                assert!(unsafe { DETACH_KINDS[j] } == kinds[j], "array-elements: the element itself is what gets detached, in order");
+                match unsafe { &*v.as_ptr().add(j) } {
+                    Value::Number(n) => assert!(*n == 1000.0 + j as f64, "array-elements: each element is replaced by its detached value"),
+                    _ => assert!(false, "array-elements: each element is replaced by its detached value"),
+                }
+                j += 1;
+            }
+        }
+        _ => assert!(false, "kind: an array stays an array"),
+    }
+    kani::cover!(len == 0 || kinds[0] == 5, "a nested array element");
+    kani::cover!(len == 0 || kinds[0] == 1, "a string view element");
+    std::mem::forget(out);
+    std::mem::forget(rt);
+}
+macro_rules! detach_array_step {
+    ($name:ident, $len:literal) => {
+        rt_proof_runtime! {
+            #[kani::stub(crate::runtime::Runtime::detach_return_value, crate::runtime::Runtime::verif_detach_mark)]
+            #[kani::unwind(4)]
+            fn $name() { detach_array_step($len) }
+        }
+    };
+}
